@@ -577,3 +577,103 @@ pub fn equal_up_to_renaming(a: &F, b: &F) -> Option<HashMap<String, String>> {
     let mut bwd = HashMap::new();
     if go(a, b, &mut fwd, &mut bwd) { Some(fwd) } else { None }
 }
+
+/// Canonical key of a formula up to consistent renaming: bound variables by de-Bruijn index,
+/// free variables numbered by first occurrence (text order). Two formulae are equal up to a
+/// consistent renaming of state variables iff their keys are equal. Also returns the free
+/// variables in numbering order.
+pub fn canon_key(f: &F) -> (String, Vec<String>) {
+    fn go(f: &F, scope: &mut Vec<String>, free: &mut Vec<String>, out: &mut String) {
+        let idx = |scope: &Vec<String>, free: &mut Vec<String>, v: &str| -> String {
+            match scope.iter().rev().position(|s| s == v) {
+                Some(i) => format!("#{i}"),
+                None => {
+                    let k = match free.iter().position(|x| x == v) {
+                        Some(k) => k,
+                        None => {
+                            free.push(v.to_string());
+                            free.len() - 1
+                        }
+                    };
+                    format!("free{k}")
+                }
+            }
+        };
+        match f {
+            F::True => out.push('T'),
+            F::False => out.push('F'),
+            F::Prop(p) => {
+                out.push_str("p:");
+                out.push_str(p)
+            }
+            F::Wild(w) => {
+                out.push_str("w:");
+                out.push_str(w)
+            }
+            F::Var(v) => out.push_str(&idx(scope, free, v)),
+            F::Un(op, a) => {
+                out.push('(');
+                out.push_str(op.text());
+                out.push(' ');
+                go(a, scope, free, out);
+                out.push(')');
+            }
+            F::Bin(op, a, b) => {
+                out.push('(');
+                go(a, scope, free, out);
+                out.push(' ');
+                out.push_str(op.text());
+                out.push(' ');
+                go(b, scope, free, out);
+                out.push(')');
+            }
+            F::Hyb(Hyb::Jump, v, _, a) => {
+                out.push_str("(@");
+                out.push_str(&idx(scope, free, v));
+                out.push(' ');
+                go(a, scope, free, out);
+                out.push(')');
+            }
+            F::Hyb(op, v, d, a) => {
+                out.push('(');
+                out.push_str(op.text());
+                if let Some(d) = d {
+                    out.push_str(" in ");
+                    out.push_str(d);
+                }
+                out.push(' ');
+                scope.push(v.clone());
+                go(a, scope, free, out);
+                scope.pop();
+                out.push(')');
+            }
+        }
+    }
+    let mut out = String::new();
+    let mut free = Vec::new();
+    go(f, &mut Vec::new(), &mut free, &mut out);
+    (out, free)
+}
+
+/// Rename the free variables of a formula (bound ones are untouched).
+pub fn rename_free(f: &F, map: &HashMap<String, String>) -> F {
+    fn go(f: &F, bound: &mut Vec<String>, map: &HashMap<String, String>) -> F {
+        let ren = |bound: &Vec<String>, v: &str| -> String {
+            if bound.iter().any(|b| b == v) { v.to_string() } else { map.get(v).cloned().unwrap_or_else(|| v.to_string()) }
+        };
+        match f {
+            F::Var(v) => F::Var(ren(bound, v)),
+            F::Un(op, a) => un(*op, go(a, bound, map)),
+            F::Bin(op, a, b) => bin(*op, go(a, bound, map), go(b, bound, map)),
+            F::Hyb(Hyb::Jump, v, d, a) => F::Hyb(Hyb::Jump, ren(bound, v), d.clone(), Box::new(go(a, bound, map))),
+            F::Hyb(op, v, d, a) => {
+                bound.push(v.clone());
+                let body = go(a, bound, map);
+                bound.pop();
+                F::Hyb(*op, v.clone(), d.clone(), Box::new(body))
+            }
+            other => other.clone(),
+        }
+    }
+    go(f, &mut Vec::new(), map)
+}
